@@ -809,7 +809,8 @@ class Record:
         self.union = bool(raw.get('union'))
         self.ta = [S[i] for i in raw.get('ta', [])]
         self.bases = [dict(t=S[b['t']], acc=b['acc'], virtual=b.get('virtual', 0)) for b in raw['bases']]
-        self.fields = [dict(n=S[f['n']], t=S[f['t']], acc=f['acc'], mutable=f.get('mutable', 0), dmi=f.get('dmi', 0))
+        self.fields = [dict(n=S[f['n']], t=S[f['t']], acc=f['acc'], mutable=f.get('mutable', 0), dmi=f.get('dmi', 0),
+                            dmiv=f.get('dmiv'))
                        for f in raw['fields']]
         self.mnames = [S[i] for i in raw.get('mnames', [])]
         qn0 = strip_targs(self.qn)
